@@ -519,11 +519,11 @@ structure LouvainEmbOut (α : Type) where
   embeddingRow : Option (Mat α)
   embeddingCol : Option (Mat α)
 
-/-- `LouvainEmbedding.fit` after Louvain returned its labels: `labels` (square input) or
-    `labelsCol`, `labelsRow` (rectangular input). -/
-def louvainEmbFit (nRow nCol : Nat) (a : Mat α) (labelsNode labelsRow labelsCol : List Nat)
+/-- `LouvainEmbedding.fit` after Louvain returned its labels: `labels` when Louvain worked on the matrix as an
+    adjacency (`louvain.bipartite` false: square input, not forced), else `labelsCol`, `labelsRow`. -/
+def louvainEmbFit (nRow nCol : Nat) (a : Mat α) (forceBipartite : Bool) (labelsNode labelsRow labelsCol : List Nat)
     (which : Isolated) : Except PyErr (LouvainEmbOut α) := do
-  if nRow == nCol then
+  if !(forceBipartite || nRow != nCol) then
     let (lab, _) ← reindexLabels labelsNode none which
     pure { labels := lab, embedding := louvainProject nRow nCol a lab, embeddingRow := none, embeddingCol := none }
   else
